@@ -182,7 +182,15 @@ Fixpoint take_digits (s : str) : str * str :=
 
 Definition float_overflow_threshold : Z := 2 ^ 1024 - 2 ^ 970.
 
-Definition go_float_ok (lit : str) : bool :=
+(* a leading zero directly followed by a digit (01e2, 03.0): strconv accepts it, JavaScript
+   does not; ParseFloatLiteral rejects it *)
+Definition leading_zero_digit (lit : str) : bool :=
+  match lit with
+  | 48%N :: d :: _ => (48 <=? d)%N && (d <=? 57)%N
+  | _ => false
+  end.
+
+Definition strconv_float_ok (lit : str) : bool :=
   let '(ip, r1) := take_digits lit in
   let '(fp, r2) := match r1 with 46%N :: r => take_digits r | _ => ([], r1) end in
   let has_dot := match r1 with 46%N :: _ => true | _ => false end in
@@ -219,6 +227,8 @@ Definition go_float_ok (lit : str) : bool :=
         | _, _ => false
         end
   end.
+
+Definition go_float_ok (lit : str) : bool := strconv_float_ok lit && negb (leading_zero_digit lit).
 
 (* ---------- the Parse* methods, with p.statementParseFn / p.expressionParseFn open ---------- *)
 
